@@ -236,3 +236,175 @@ class AddressEncode(Job):
 
 
 JOBS["C28"] += [AddressDecode(), AddressEncode()]
+
+
+# ---------------------------------------------------------------------------------------------------------------
+# NonFungibleLocalId::from_str, all four text forms
+from mirsmt.values import StrSymV   # noqa: E402
+
+
+def _is_hex(c):
+    return z3.Or(z3.And(c >= 48, c <= 57), z3.And(c >= 97, c <= 102), z3.And(c >= 65, c <= 70))
+
+
+def _is_id_char(c):
+    return z3.Or(z3.And(c >= 97, c <= 122), z3.And(c >= 65, c <= 90), z3.And(c >= 48, c <= 57), c == 95)
+
+
+class ParseLocalIdForms(Job):
+    """cases: the text length; `shape` pins the bracket pair so that each form gets its own (cheap) run"""
+    crate = "radix-common"
+    query_timeout_s = 90
+    max_unroll = 80
+    case_keys = ("len", "open")
+    OPEN = {60: 62, 91: 93, 123: 125}       # '<' '>', '[' ']', '{' '}'
+
+    def __init__(self):
+        self.name = "c28m::non_fungible_local_id_from_str_string_bytes_ruid_forms"
+        self.what = ("NonFungibleLocalId::from_str on every ASCII text that starts with '<', '[' or '{' (lengths 1..=8 (strings: 1..=6, longer ones with lower-case letters "
+                     "except in the last two positions) and the boundary lengths 66, 67 for strings, 130, 132 for bytes, 68, 69, 70 for RUIDs): a string id is accepted "
+                     "exactly when 1..=64 characters of [A-Za-z0-9_] stand between '<' and '>'; a bytes id exactly when an "
+                     "even number of hex digits for 1..=64 bytes stands between '[' and ']'; a RUID exactly when 64 hex "
+                     "digits in four groups of 16 separated by '-' stand between '{' and '}'; the parsed id has the "
+                     "matching kind; everything else is an error and nothing panics")
+        self.cover_labels = ["string id accepted", "bytes id accepted", "ruid accepted", "ruid with a fourth hyphen rejected",
+                             "bad character rejected"]
+
+    def cases(self, tier):
+        out = []
+        short = range(1, 9) if tier == "thorough" else (1, 2, 3, 4, 6)
+        for o in (60, 91, 123):
+            for n in short:
+                if o == 60 and n > 6:
+                    continue
+                out.append({"len": n, "open": o})
+        out += [{"len": 66, "open": 60}, {"len": 67, "open": 60}, {"len": 130, "open": 91}, {"len": 132, "open": 91},
+                {"len": 68, "open": 123}, {"len": 69, "open": 123}, {"len": 70, "open": 123}]
+        return out
+
+    def locate(self, prog):
+        return find_function(prog, "model/non_fungible_local_id.rs", "from_str", param_types=["&str"])
+
+    def inputs(self):
+        n = self.case["len"]
+        inp, pre = {}, []
+        for i in range(n):
+            b = z3.Int("b%d" % i)
+            inp["b%d" % i] = b
+            pre += [b >= 0, b <= 127]
+        pre.append(inp["b0"] == self.case["open"])
+        if self.case["open"] == 60 and n > 5:
+            # the character check of a string id takes one of four ways per character: long strings are explored with
+            # lower-case letters everywhere except the last two inner positions (any byte)
+            for i in range(1, n - 3):
+                pre += [inp["b%d" % i] >= 97, inp["b%d" % i] <= 122]
+        return inp, pre
+
+    def _bytes(self, inp):
+        return [lit(inp["b%d" % i]) for i in range(self.case["len"])]
+
+    @property
+    def env_overrides(self):
+        def m_hex_decode(interp, path, args, ret_ty, callee):
+            v = _models.deref(interp, path, args[0])
+            if v.kind == "symstr":
+                cs = v.bytes
+                if len(cs) % 2:
+                    return EnumV(ret_ty, 1, {1: [EnumV("FromHexError", 0, {0: []})]})
+                valid = z3.And([_is_hex(c) for c in cs]) if cs else z3.BoolVal(True)
+                data = StructV("Vec<u8>", [IntV(0, "u8")] * (len(cs) // 2))
+                return EnumV(ret_ty, z3.If(valid, 0, 1), {0: [data], 1: [EnumV("FromHexError", 0, {0: []})]})
+            if v.kind == "struct" and v.ty == "FilteredString":
+                n = z3.Sum([z3.If(k.fields[1].term, 1, 0) for k in v.fields]) if v.fields else z3.IntVal(0)
+                valid = z3.And([z3.Implies(k.fields[1].term, _is_hex(k.fields[0].term)) for k in v.fields] + [n % 2 == 0])
+                return EnumV(ret_ty, z3.If(valid, 0, 1), {0: [StructV("SymLenVec<u8>", [IntV(n / 2, "usize")])],
+                                                           1: [EnumV("FromHexError", 0, {0: []})]})
+            raise _models.Refuse("hex::decode of %r" % (v,))
+        def m_as_ref(interp, path, args, ret_ty, callee):
+            v = _models.deref(interp, path, args[0])
+            if v.kind != "symstr":
+                raise _models.Refuse("as_ref of %r" % (v,))
+            return v
+        return [(re.compile(r"^hex::decode::<"), m_hex_decode), (re.compile(r"^<[ST] as AsRef<str>>::as_ref$"), m_as_ref),
+                (re.compile(r"^<T as Into<Vec<u8>>>::into$"), lambda interp, path, args, ret_ty, callee: args[0]),
+                (re.compile(r"^<String as (__)?Deref>::deref$"), lambda interp, path, args, ret_ty, callee: args[0])]
+
+    def args(self, inp):
+        return [StrSymV(self._bytes(inp))]
+
+    def extract(self, v):
+        ok = v.discr == 0
+        kind = z3.IntVal(-1)
+        if v.variants.get(0) and v.variants[0][0].kind == "enum":
+            kind = v.variants[0][0].discr
+        return {"ok": ok, "kind": z3.If(ok, kind, -1)}
+
+    def native(self, nat, vals):
+        hx = "".join("%02x" % int(vals["b%d" % i]) for i in range(self.case["len"]))
+        t = nat.call("nfid_kind", hx).split()
+        if t[0] == "panic":
+            return {"panic": True, "msg": " ".join(t[1:])}
+        return {"panic": False, "ok": t[0] == "ok", "kind": int(t[1]) if t[0] == "ok" else -1}
+
+    def _spec(self, bs):
+        n = len(bs)
+        o = self.case["open"]
+        if n < 2:
+            return z3.BoolVal(False), -1
+        closed = bs[-1] == self.OPEN[o]
+        inner = bs[1:-1]
+        if o == 60:
+            good = z3.And([z3.BoolVal(1 <= len(inner) <= 64)] + [_is_id_char(c) for c in inner])
+            return z3.And(closed, good), 0
+        if o == 91:
+            good = z3.And([z3.BoolVal(len(inner) % 2 == 0 and 1 <= len(inner) // 2 <= 64)] + [_is_hex(c) for c in inner])
+            return z3.And(closed, good), 2
+        if len(inner) != 67:
+            return z3.BoolVal(False), 3
+        good = z3.And([inner[i] == 45 if i in (16, 33, 50) else _is_hex(inner[i]) for i in range(67)])
+        return z3.And(closed, good), 3
+
+    def post(self, inp, res):
+        bs = self._bytes(inp)
+        spec, kind = self._spec(bs)
+        ok = lit(res["ok"])
+        return [("accepted exactly when the text is a well-formed id of its bracket's form", ok == spec),
+                ("the parsed id has the kind its brackets announce", z3.Implies(ok, lit(res["kind"]) == kind))]
+
+    def covers(self, inp, res):
+        bs = self._bytes(inp)
+        n, o = len(bs), self.case["open"]
+        ok = lit(res["ok"])
+        F = z3.BoolVal(False)
+        fourth = F
+        if o == 123 and n == 69:
+            inner = bs[1:-1]
+            fourth = z3.And(z3.Not(ok), bs[-1] == 125, inner[16] == 45, inner[33] == 45, inner[50] == 45, inner[5] == 45,
+                            z3.And([_is_hex(inner[i]) for i in range(67) if i not in (5, 16, 33, 50)]))
+        bad = z3.And(z3.Not(ok), bs[-1] == self.OPEN[o]) if (n >= 3) else F
+        return [("string id accepted", z3.And(ok, o == 60)), ("bytes id accepted", z3.And(ok, o == 91)),
+                ("ruid accepted", z3.And(ok, o == 123)), ("ruid with a fourth hyphen rejected", fourth),
+                ("bad character rejected", bad)]
+
+    def vectors(self, rng):
+        texts = ["<a>", "<>", "<a b>", "<abc_09Z>", "<", "[", "{", "[00]", "[0g]", "[0]", "[]", "[0aFf]", "<a", "[00", "{}", "{a}",
+                 "<" + "a" * 64 + ">", "<" + "a" * 65 + ">", "[" + "ab" * 64 + "]", "[" + "ab" * 65 + "]",
+                 "{1111111111111111-2222222222222222-3333333333333333-4444444444444444}",
+                 "{1111111111111111-2222222222222222-3333333333333333-44444444444444--}",
+                 "{1111111111111111-2222222222222222-3333333333333333-444444444444444g}",
+                 "{1111111111111111-2222222222222222-3333333333333333-444444444444444}",
+                 "{1111111111111111-2222222222222222-3333333333333333-44444444444444444}",
+                 "{1111111111111111_2222222222222222-3333333333333333-4444444444444444}"]
+        allowed = {(c["len"], c["open"]) for c in self.cases("thorough")}
+        out = []
+        for t in texts:
+            if (len(t), ord(t[0])) not in allowed:
+                continue
+            d = {"len": len(t), "open": ord(t[0])}
+            for i, ch in enumerate(t):
+                d["b%d" % i] = ord(ch)
+            out.append(d)
+        return out
+
+
+JOBS["C28"] += [ParseLocalIdForms()]
